@@ -141,6 +141,46 @@ fn main() {
     }
 }
 
+fn hang_limit() -> std::time::Duration {
+    std::time::Duration::from_secs(std::env::var("MC_HANG_S").ok().and_then(|s| s.parse().ok()).unwrap_or(30))
+}
+
+/// A library call that never returns would leave the explorer waiting for ever. The watchdog reports the input of the
+/// oldest call that exceeds the limit and ends the process: as a C07 violation when C07 is being checked, as a
+/// machinery exit (no verdict) for every other property.
+fn start_watchdog(prop: &str) {
+    let prop = prop.to_string();
+    std::thread::spawn(move || loop {
+        std::thread::sleep(std::time::Duration::from_millis(500));
+        if let Some((text, cfg, width, range, age)) = explore::stuck_call(hang_limit()) {
+            let f = Failure {
+                class: "hang".into(),
+                fam: "E1-watchdog",
+                text,
+                cfg,
+                width,
+                wmax: width,
+                nwidths: 1,
+                widths: vec![width],
+                range,
+                detail: format!("format_code has not returned after {:.0} s", age.as_secs_f64()),
+                output: String::new(),
+            };
+            let rdir = format!("{}/replays/{}", VERIF, prop);
+            let _ = std::fs::create_dir_all(&rdir);
+            let path = format!("{}/{:016x}.json", rdir, fnv(&f.key()));
+            let _ = std::fs::write(&path, serde_json::to_string_pretty(&failure_json(&prop, &f)).unwrap());
+            eprintln!("  [hang] {} | {} | w={} range={:?} -> {}", f.text.escape_debug(), f.cfg.key(), f.width, f.range, f.detail);
+            if prop == "C07" {
+                println!("VIOLATION property=C07 replay={}", path);
+                std::process::exit(1);
+            }
+            eprintln!("mc: a library call did not return; no verdict for {} (this is C07's subject; input recorded in {})", prop, path);
+            std::process::exit(3);
+        }
+    });
+}
+
 fn check(prop: &str, tier: &str, emit: Option<String>) -> i32 {
     let t0 = Instant::now();
     let thorough = tier == "thorough";
@@ -186,6 +226,7 @@ fn check(prop: &str, tier: &str, emit: Option<String>) -> i32 {
         eprintln!("mc: no E1 plan for {}", prop);
         return 3;
     }
+    start_watchdog(prop);
     let mut stats = Stats::default();
     let mut failures: Vec<Failure> = vec![];
     let mut plan_rows = vec![];
@@ -513,6 +554,24 @@ fn replay(path: &str) -> i32 {
     let w = v["width"].as_u64().map(|x| x as usize).unwrap_or(usize::MAX);
     let range = v["range"].as_array().map(|a| (a[0].as_u64().map(|x| x as usize), a[1].as_u64().map(|x| x as usize)));
     println!("program:\n{}\nconfig: {} width={} range={:?}", text, c.key(), w, range);
+    if v["class"].as_str() == Some("hang") {
+        // the recorded call did not return: run it on a thread of its own and give up after the same limit
+        let (tx, rx) = std::sync::mpsc::channel();
+        let (t2, c2) = (text.to_string(), c);
+        std::thread::spawn(move || {
+            let _ = tx.send(run_format(&t2, &c2, w, range).0);
+        });
+        match rx.recv_timeout(hang_limit()) {
+            Ok(o) => {
+                println!("the call returns now: {:?}", o);
+                return 0;
+            }
+            Err(_) => {
+                println!("the call has not returned after {} s (recorded: {})", hang_limit().as_secs(), v["detail"]);
+                return 1;
+            }
+        }
+    }
     let (o, _) = run_format(text, &c, w, range);
     println!("result: {:?}", o);
     if let Out::Ok(out) = &o {
